@@ -19,7 +19,9 @@ CLAIMS = {
         "thread the code generated for join_spawn!/try_join_spawn! and the code generated for join!/try_join! end with the same value (same tuple "
         "or same failure), or both panic (specLoop_spawning_sim: forked-and-joined chains give what chains run one after the other give; "
         "carried to the generated code by the refinement theorem); async_spawn_agrees — join_async_spawn! and join_async! have the same "
-        "events and outcome under the canonical schedule. K1 runs every program under all configurations; K2 compiles the 12 names.",
+        "events and outcome under the canonical schedule. K1 runs every program under all configurations; K2 compiles the 12 names; hygiene "
+        "probe: for every identifier the real expansions write themselves, a program whose macro body uses a caller variable of that name "
+        "gives the same value as with the variable renamed, in all twelve macros.",
         NOTE_COMMON + "The extractor additionally checks that the 12 entry points are textually identical up to the three booleans. "
         "try_join_async!/try_join_async_spawn! agreement is by async_try_refines for each (same reference loop specLoopAT); tokio's task "
         "scheduling is outside the model.",
@@ -213,7 +215,9 @@ CLAIMS["C19"] = ("Props/C19 (Lean 4, ∀ programs): without `spawn` no operand i
                  "sequential frame is one block (inspect helper bounded by impl Fn(&I) only); Send + 'static are written only in "
                  "__spawn_tokio, Box::pin only in the async frame. K1 token oracle on real sequential outputs (no Box/clone/Send/'static/"
                  "format!/spawn/collections of the macro's own); K2: move-only, Rc, & and &mut programs through the non-spawning macros must "
-                 "compile and run, allocation counter = 0 around sequential evaluations, drop counter exact.",
+                 "compile and run, allocation counter = 0 around sequential evaluations, drop counter exact; non-spawning async: token oracle on long "
+                 "chains / large / random programs (no Send/'static/boxed/clone, exactly one Box), 12-member chains over Rc and a borrowed Cell, "
+                 "allocations of a long chain = those of a short one.",
                  NOTE_COMMON + "Whether rustc accepts a borrowing program and what the allocator does are type-system / run-time facts: observed (K2), partial.",
                  "Lean 4 syntactic theorems + K1 token oracle + K2 allocation/borrow programs", "§7 C19")
 PLANNED = {}
